@@ -13,6 +13,7 @@ import (
 	"encoding/json"
 	"flag"
 	"fmt"
+	"golang.org/x/tools/go/ssa"
 	"os"
 	"path/filepath"
 	"sort"
@@ -33,6 +34,8 @@ func main() {
 		os.Exit(cmdList(os.Args[2:]))
 	case "replay":
 		os.Exit(cmdReplay(os.Args[2:]))
+	case "sigs":
+		os.Exit(cmdSigs(os.Args[2:]))
 	case "dump":
 		os.Exit(cmdDump(os.Args[2:]))
 	case "counts":
@@ -189,6 +192,7 @@ func cmdCheck(args []string) int {
 			cp := *r.prog
 			cp.CG = r.prog.CHA
 			cp.summaries = map[string]interface{}{}
+			cp.renamed = map[string]*ssa.Function{}
 			vta := map[string]Status{}
 			for _, o := range r.obs {
 				vta[o.Key] = o.Status
